@@ -412,3 +412,41 @@ func (v Val) Lookup(k string) (Val, bool) {
 	}
 	return Val{}, false
 }
+
+// FirstDiff names the first position where a and b differ (for messages).
+func FirstDiff(a, b Val) string { return firstDiff(a, b, "") }
+
+func firstDiff(a, b Val, path string) string {
+	if Equal(a, b) {
+		return ""
+	}
+	if a.K == b.K {
+		switch a.K {
+		case KList:
+			for i := 0; i < len(a.L) && i < len(b.L); i++ {
+				if d := firstDiff(a.L[i], b.L[i], fmt.Sprintf("%s/%d", path, i)); d != "" {
+					return d
+				}
+			}
+			return fmt.Sprintf("at %q: list lengths %d vs %d", path, len(a.L), len(b.L))
+		case KMap:
+			for i := 0; i < len(a.M) && i < len(b.M); i++ {
+				if a.M[i].K != b.M[i].K {
+					return fmt.Sprintf("at %q: entry %d has key %q vs %q", path, i, a.M[i].K, b.M[i].K)
+				}
+				if d := firstDiff(a.M[i].V, b.M[i].V, path+"/"+a.M[i].K); d != "" {
+					return d
+				}
+			}
+			return fmt.Sprintf("at %q: map lengths %d vs %d", path, len(a.M), len(b.M))
+		}
+	}
+	da, db := a.Dump(), b.Dump()
+	if len(da) > 200 {
+		da = da[:200] + "…"
+	}
+	if len(db) > 200 {
+		db = db[:200] + "…"
+	}
+	return fmt.Sprintf("at %q: %s vs %s", path, da, db)
+}
